@@ -90,6 +90,12 @@ class Ctx:
     def explain(self, text):
         self.explanations.append(text)
 
+    def sample(self, case):
+        """an actual case examined by a tabulation/exploration, written out for the evidence"""
+        lst = self.extra.setdefault('case_samples', [])
+        if len(lst) < 24:
+            lst.append(case)
+
 
 def load_known():
     p = os.path.join(VERIF, 'known_findings.json')
@@ -223,6 +229,8 @@ def run_property(prop, tier, root, quiet=False):
         'violations': len(new_viol),
     }
     ev['coverage'].update(ctx.extra)
+    for cs in ctx.extra.get('case_samples', []):
+        ev['coverage']['samples'].append({'case': cs})
     if status == 2:
         ev['coverage']['analysis_broken'] = broken_msg
     if root == irdb.repo_root() and not os.environ.get('VERIF_NO_EVIDENCE'):
